@@ -345,6 +345,8 @@ def eval_stage(ev, prop, universe, checks, tier, seed, timeout=1500, label=None,
     ev.add_tlc(label or f"Evaluator[{universe}]", r,
                "invariants TypeOK NodesAreLocations SmallStepIsDenotation PrefixDenotation PreOrder PathRoundTrip "
                "SMOnlyThere; action properties InputMajorOrder ChildDepth DocUnchanged")
+    if universe == "C15":
+        _sorted_docs_first(cases)
     mism, summary = run_replay("replay", ["--checks", checks], cases)
     ev.traces += summary["cases"]
     ev.evaluations += summary["cases"]
@@ -366,6 +368,22 @@ _FEATURES = [("descendant", r"\.\."), ("wildcard", r"\*"), ("filter", r"\?"), ("
              ("eq", r"=="), ("ne", r"!="), ("lt", r"<(?!=)"), ("le", r"<="), ("gt", r">(?!=)"), ("ge", r">="), ("root_in_filter", r"\?.*\$"),
              ("length", r"length\("), ("count", r"count\("), ("value", r"value\("), ("match", r"match\("), ("search", r"search\("),
              ("nested_filter", r"\?[^\]]*\?"), ("blank", r"[ \t\n\r]"), ("escape", r"\\\\"), ("double_quote", r'"'), ("exponent", r"\d[eE][-+]?\d")]
+
+
+def _sorted_docs_first(cases_path):
+    """Universe C15 mixes key-sorted documents (run on serde_json::Value AND on J) with insertion-ordered ones (J only).
+    One process replays them all; the sorted ones go first so that the history is: the engine has seen the library's own
+    data type, then meets the other (a legitimate history - process-wide state must not carry over)."""
+    def key_sorted(v):
+        ks = ["".join(map(chr, k)) for k in v.get("keys", [])]
+        return ks == sorted(ks) and all(key_sorted(k) for k in v.get("kids", []))
+    with open(cases_path) as f:
+        lines = [l for l in f.read().split("\n") if l.strip()]
+    first, rest = [], []
+    for l in lines:
+        (first if key_sorted(json.loads(l)["doc"]) else rest).append(l)
+    with open(cases_path, "w") as f:
+        f.write("\n".join(first + rest) + "\n")
 
 
 def feature_counts(cases_path, limit=200000):
